@@ -28,8 +28,9 @@ func checkC11(p *Prog, r *Report) {
 
 // checkSetPermsPaths: every nil-returning path of recvGenerator that
 // materialises or accepts an entry passes through setPerms.
-func checkSetPermsPaths(p *Prog, r *Report) {
-	rule := "C11/SETPERMS-AFTER-CREATE"
+func checkSetPermsPaths(p *Prog, r *Report) { checkSetPermsPathsAs(p, r, "C11/SETPERMS-AFTER-CREATE") }
+
+func checkSetPermsPathsAs(p *Prog, r *Report, rule string) {
 	r.Rule(rule, "every path of recvGenerator that returns nil without requesting the file, outside list-only / dry-run / unsupported-type skips, calls setPerms after whatever it created (MkdirAll, symlink, createDevice) or accepted (existing directory, equal symlink, up-to-date file); in receiveData the final nil return is dominated by setPerms, which is dominated by the atomic replace", 5)
 	fn := anchorFunc(p, r, pkgReceiver, "Transfer", "recvGenerator")
 	setPerms := anchorFunc(p, r, pkgReceiver, "Transfer", "setPerms")
@@ -215,8 +216,11 @@ func checkSetPermsPaths(p *Prog, r *Report) {
 }
 
 func checkOptionGuards(p *Prog, r *Report) {
-	rule := "C11/OPTION-GUARDS"
-	r.Rule(rule, "each metadata operation is controlled by its own option: Chtimes ⇐ PreserveTimes ∧ not a symlink ∧ times differ, with f.ModTime for both arguments; the uid (gid) passed to Lchown is File.Uid (File.Gid) only on the edge PreserveUid∧amRoot (PreserveGid∧(amRoot∨inGroup)), the existing id otherwise; Chmod is skipped for symlinks; without -p an existing file's own permissions are kept", 4)
+	checkOptionGuardsAs(p, r, "C11/OPTION-GUARDS", false)
+}
+
+func checkOptionGuardsAs(p *Prog, r *Report, rule string, timesOnly bool) {
+	r.Rule(rule, "each metadata operation is controlled by its own option: Chtimes ⇐ PreserveTimes ∧ not a symlink ∧ times differ, with f.ModTime for both arguments; the uid (gid) passed to Lchown is File.Uid (File.Gid) only on the edge PreserveUid∧amRoot (PreserveGid∧(amRoot∨inGroup)), the existing id otherwise; Chmod is skipped for symlinks; without -p an existing file's own permissions are kept", map[bool]int{true: 1, false: 4}[timesOnly])
 	sp := anchorFunc(p, r, pkgReceiver, "Transfer", "setPerms")
 	su := anchorFunc(p, r, pkgReceiver, "Transfer", "setUid")
 	olf := anchorFunc(p, r, pkgReceiver, "Transfer", "openLocalFile")
@@ -259,9 +263,15 @@ func checkOptionGuards(p *Prog, r *Report) {
 			})
 			r.Cond(okArgs && okGuard, rule, "setPerms → Chtimes", p.Pos(instrPos(c)), "Chtimes(f.Name, f.ModTime, f.ModTime) only under -t, for non-symlinks whose time differs")
 		case "(*os.Root).Chmod":
+			if timesOnly {
+				return
+			}
 			r.Cond(notSymlink(c), rule, "setPerms → Chmod", p.Pos(instrPos(c)), "Chmod must be skipped for symlinks")
 		}
 	})
+	if timesOnly {
+		return
+	}
 	// setUid: which ids reach Lchown, for every assignment of the conditions
 	amRoot, _ := p.Obj(pkgReceiver, "amRoot").(*types.Var)
 	inGroup, _ := p.Obj(pkgReceiver, "inGroup").(*types.Var)
